@@ -2,6 +2,7 @@
 import IpcHub.Model.H264Sps
 import IpcHub.Model.Asc
 import IpcHub.Model.Hevc
+import IpcHub.Model.MetaReady
 import IpcHub.Gen.CodecFacts
 namespace IpcHub.H264
 
@@ -50,3 +51,19 @@ def genCfg : Cfg :=
     rpsInterStd := IpcHub.Gen.hevcRpsInterStd }
 
 end IpcHub.Hevc
+
+namespace IpcHub.MetaReady
+
+/-- `RawSPS.Decode` followed by Width()/Height()/IsFixedFrameRate()/FrameRate(), as `h264.MetadataIsReady` uses them -/
+def dec264 (cfg : H264.Cfg) (b : List UInt8) : Option Dims :=
+  match H264.decode cfg b with
+  | .ok s => some { width := H264.width cfg s, height := H264.height cfg s, fixed := H264.isFixedFrameRate s, fps := H264.frameRate cfg s }
+  | .error _ => none
+
+/-- `H265RawSPS.Decode` followed by Width()/Height()/IsFixedFrameRate()/FrameRate(), as `hevc.MetadataIsReady` uses them -/
+def dec265 (cfg : Hevc.Cfg) (b : List UInt8) : Option Dims :=
+  match Hevc.decodeSps cfg b with
+  | .ok s => some { width := Hevc.width s.head, height := Hevc.height s.head, fixed := Hevc.isFixedFrameRate s, fps := Hevc.frameRate s }
+  | .error _ => none
+
+end IpcHub.MetaReady
